@@ -118,6 +118,111 @@ func opInFlightWhenLockTaken(kind string) (problem string) {
 	return ""
 }
 
+// staleNotifyCompletesAfterJoin: S's predecessor L has crashed. P notifies S
+// twice; the first notification is stuck in S's liveness probe of L (the Ping
+// is held on the wire), the second one goes through and makes P the
+// predecessor. Then J joins between P and S through S and takes over (P, J].
+// Only now the first notification resumes - computed from a view in which L
+// was still the predecessor. Requests entering at S for a key that moved to J
+// must still be answered with the acknowledged value (or fail retryably).
+func staleNotifyCompletesAfterJoin() (problem string) {
+	const (
+		P = uint64(1) << 44
+		L = uint64(2) << 44
+		J = uint64(5) << 43
+		S = uint64(3) << 44
+	)
+	r := newSimRing(ringsim.Config{Seed: 61, StabilizeInterval: time.Second, FixFingerInterval: time.Second, PredCheckInterval: time.Second})
+	defer r.net.Close()
+	if err := r.buildRing([]uint64{P, L, S}, func(i int) int { return 0 }); err != nil {
+		return "precondition: " + err.Error()
+	}
+	if _, c := r.settle(60, true, nil); c.Problem != "" {
+		return "precondition: " + c.Problem
+	}
+	r.fillLists(20)
+	var key []byte
+	for i := 0; i < 1<<16; i++ {
+		k := []byte(fmt.Sprintf("stale-notify-%d", i))
+		if chord.Between(L, chord.Hash(k), J, false) {
+			key = k
+			break
+		}
+	}
+	if key == nil {
+		return "precondition: no key"
+	}
+	ctx := context.Background()
+	sNode := r.members[S].Node
+	if err := retryKV(func() error { return sNode.Put(ctx, key, []byte("v1")) }); err != nil {
+		return "precondition: put: " + err.Error()
+	}
+	// (Crash also waits for the victim's tasks, which sleep for up to two seconds here; the node is
+	// unreachable from the first instant, and S must not have noticed yet)
+	go r.net.Crash(r.members[L])
+	for i := 0; i < 1000 && !r.members[L].Crashed(); i++ {
+		time.Sleep(100 * time.Microsecond)
+	}
+	if pre := sNode.VerifPredecessor(); pre == nil || pre.ID() != L {
+		return "precondition: the crash was noticed before the schedule started"
+	}
+	probe := r.net.AddGate(&ringsim.Gate{Method: "Ping", Caller: S, Callee: L, Nth: 1})
+	first := make(chan error, 1)
+	go func() { first <- r.net.Proxy(P, S).Notify(r.net.Proxy(S, P)) }()
+	select {
+	case <-probe.Reached():
+	case err := <-first:
+		probe.Release()
+		return fmt.Sprintf("precondition: first notification ended without probing the old predecessor: %v", err)
+	case <-time.After(10 * time.Second):
+		probe.Release()
+		return "precondition: probe not reached"
+	}
+	if err := r.net.Proxy(P, S).Notify(r.net.Proxy(S, P)); err != nil {
+		probe.Release()
+		return "precondition: second notification: " + err.Error()
+	}
+	if pre := sNode.VerifPredecessor(); pre == nil || pre.ID() != P {
+		probe.Release()
+		<-first
+		return "precondition: second notification did not install the predecessor"
+	}
+	if _, err := r.join(J, S); err != nil {
+		probe.Release()
+		<-first
+		return "precondition: join: " + err.Error()
+	}
+	if pre := sNode.VerifPredecessor(); pre == nil || pre.ID() != J {
+		probe.Release()
+		<-first
+		return "precondition: join did not install the joiner as predecessor"
+	}
+	probe.Release()
+	select {
+	case <-first:
+	case <-time.After(20 * time.Second):
+		return "precondition: first notification did not return"
+	}
+	got, err := sNode.Get(ctx, key)
+	switch {
+	case err != nil && chord.ErrorIsRetryable(err):
+	case err != nil:
+		return fmt.Sprintf("Get(%q) entering at %d right after a notification computed before the join of %d completed: %v", key, S, J, err)
+	case string(got) != "v1":
+		pre := sNode.VerifPredecessor()
+		return fmt.Sprintf("Get(%q) entering at %d succeeds with %q, the acknowledged value is \"v1\" (the key moved to %d when it joined; a notification from %d that had been computed while %d was still recorded as predecessor completed after the join; %d now records %v as predecessor)", key, S, got, J, P, L, S, vidOf(pre))
+	}
+	if err := sNode.Put(ctx, key, []byte("v2")); err == nil {
+		var got2 []byte
+		if e := retryKV(func() (e error) { got2, e = r.members[J].Node.Get(ctx, key); return }); e == nil && string(got2) != "v2" {
+			return fmt.Sprintf("Put(%q, \"v2\") entering at %d was acknowledged, Get through its owner %d returns %q", key, S, J, got2)
+		}
+	} else if !chord.ErrorIsRetryable(err) {
+		return fmt.Sprintf("Put(%q) entering at %d failed non-retryably: %v", key, S, err)
+	}
+	return ""
+}
+
 // leaveHandOverFailsAtKthImport: a node that owns several hundred keys leaves
 // gracefully and the k-th Import call of its hand-over fails before delivery
 // (for k > 1 that call only exists if the hand-over is split into several
